@@ -106,7 +106,10 @@ def run_layout(c):
     if out.netlist is None:
         raise Violation("%s returned a die without netlist" % what, "no-netlist")
     check_result(c, desc0, cen0, out, what)
-    out2, _ = fruchterman_reingold_layout(twin, kappa, False, None, it)
+    try:
+        out2, _ = fruchterman_reingold_layout(twin, kappa, False, None, it)
+    except Exception as e:
+        raise Violation("%s raised %s: %s when repeated on a copy" % (what, type(e).__name__, e), "raised")
     if centres(out2.netlist) != centres(out.netlist):
         raise Violation("%s is not deterministic: %s vs %s" % (what, centres(out.netlist), centres(out2.netlist)), "not-deterministic")
     kinds = [m["kind"] for m in c["modules"]]
@@ -166,7 +169,10 @@ def run_bestof(c):
     it = int(c["max_iter"])
     cands = []
     for kappa in [i / 10 for i in range(4, 16)]:
-        d2, _ = fruchterman_reingold_layout(copy.deepcopy(die), kappa, False, None, it)
+        try:
+            d2, _ = fruchterman_reingold_layout(copy.deepcopy(die), kappa, False, None, it)
+        except Exception as e:
+            raise Violation("fruchterman_reingold_layout(kappa=%r, max_iter=%d) raised %s: %s on %s" % (kappa, it, type(e).__name__, e, c["modules"]), "raised")
         cost, rmax = my_cost(d2.netlist)
         cands.append((kappa, centres(d2.netlist), cost, rmax))
     try:
@@ -231,12 +237,47 @@ def design_s(draw, bestof=False):
         c["max_iter"] = draw(_i(1, 8))
     else:
         c["kappa"] = draw(st.sampled_from([0.1, 0.4, 0.7, 1.0, 1.5, 3.0, 2.2]))
-        c["max_iter"] = draw(st.sampled_from([0, 1, 2, 5, 10, 25]))
+        c["max_iter"] = draw(st.sampled_from([0, 1, 2, 5, 10, 25, 25, 100]))
+    return c
+
+
+def run_visualize(c):
+    """The visualisation option (one picture per iteration) does not change the layout; iteration counts around the default."""
+    die = build(c)
+    desc0, cen0 = describe(die.netlist), centres(die.netlist)
+    twin = copy.deepcopy(die)
+    kappa, it = float(c["kappa"]), int(c["max_iter"])
+    what = "fruchterman_reingold_layout(kappa=%r, max_iter=%d, visualize=...)" % (kappa, it)
+    try:
+        plain, _ = fruchterman_reingold_layout(twin, kappa, False, None, it)
+    except Exception as e:
+        raise Violation("fruchterman_reingold_layout(kappa=%r, max_iter=%d) raised %s: %s" % (kappa, it, type(e).__name__, e), "raised")
+    try:
+        out, imgs = fruchterman_reingold_layout(die, kappa, False, "layout", it)
+    except Exception as e:
+        raise Violation("%s raised %s: %s" % (what, type(e).__name__, e), "raised")
+    check_result(c, desc0, cen0, out, what)
+    size = max(die.width, die.height)
+    a, b = centres(out.netlist), centres(plain.netlist)
+    if any(abs(p[0] - q[0]) > 1e-9 * size or abs(p[1] - q[1]) > 1e-9 * size for p, q in zip(a, b)):
+        raise Violation("%s returns centres %s, the same call without visualisation %s" % (what, a, b), "visualize-changes-the-layout")
+    return dict(nt=it >= 100, cls=["max_iter>=100" if it >= 100 else "max_iter<100", "pictures=%s" % ("some" if imgs else "none")])
+
+
+@st.composite
+def visualize_s(draw):
+    c = draw(design_s(False))
+    c["max_iter"] = draw(st.sampled_from([100, 100, 150, 200, 120, 101, 30]))
+    # (modules that carry rectangles are fixed in this generator; the drawing code re-derives centres from rectangles)
+    c["squares"] = False
     return c
 
 
 def subchecks():
     return [
+        Sub("visualize", run_visualize, strategy=visualize_s(), n_quick=48, n_thorough=1200, shrink_quick=False, shrink_thorough=False,
+            required=("max_iter>=100",), case_timeout=300,
+            desc="the same layout call with and without the visualize option, iteration counts 30-200 (the default is 100)"),
         Sub("layout", run_layout, strategy=design_s(False), n_quick=6000, n_thorough=60000,
             required=("something-moved", "coincident-centres", "centre-on-border", "terminal", "zero-iterations", "squares-created-before",
                       "shared-point-objects")),
